@@ -19,7 +19,9 @@ ENTRY = dict(
          "parrot as a resuming hello (filled FakePreSharedKeyExtension), with and without its padding extension, under all 8 flag sets (Go "
          "oracle). version sweep: record-layer version x legacy_version over {0x0300,0x0301,0x0302,0x0303,0x0304,0x0200,0xfefd} in all orders, with and "
          "without supported_versions (98 hellos -> fingerprint -> usability oracle; the 50 in the TLS range also as Coq cases) and "
-         "UConn.SetTLSVers(min,max,exts) directly for every pair incl. 0 (CSetVers). The usability oracle (ApplyPreset + BuildHandshakeState under recover) applies to every accepted input without a repeated "
+         "UConn.SetTLSVers(min,max,exts) directly for every pair incl. 0 (CSetVers). list shapes: each list-valued extension of a valid TLS 1.3 hello (key_share, groups, versions, signature algorithms, compression algorithms, "
+         "PSK modes, ALPN) with every sequence of 0..2 (and three of 3) entries over {GREASE, two real, one unregistered value} -> fingerprint -> "
+         "usability oracle (168 hellos, a third as Coq cases). The usability oracle (ApplyPreset + BuildHandshakeState under recover) applies to every accepted input without a repeated "
          "extension type and with pre_shared_key last. "
          "Distinct by (generator index, mutation index, flags); non-trivial: accepted with at least one extension, or refused after the "
          "fixed header, or any panic.",
